@@ -86,6 +86,10 @@ func symRecordEntry(g *Genome, nextInnov, nextNode int) Innovation {
 			vAssume(vImplies(gn.InnovationNum == r.InnovationNum2, vAnd(vAnd(l.InNode.Id == r.NewNodeId, l.OutNode.Id == r.OutNodeId), !l.IsRecurrent)))
 			vAssume(vImplies(gn.InnovationNum == r.OldInnovNum, vAnd(l.InNode.Id == r.InNodeId, l.OutNode.Id == r.OutNodeId)))
 			vAssume(vImplies(vOr(gn.InnovationNum == r.InnovationNum, gn.InnovationNum == r.InnovationNum2), hasNew))
+			// in->new carries the recurrence flag of the split gene (if this genome still carries both)
+			for _, og := range g.Genes {
+				vAssume(vImplies(vAnd(gn.InnovationNum == r.InnovationNum, og.InnovationNum == r.OldInnovNum), l.IsRecurrent == og.Link.IsRecurrent))
+			}
 			// the new node is only ever touched by the two new genes (it was created this generation)
 			touches := vOr(l.InNode.Id == r.NewNodeId, l.OutNode.Id == r.NewNodeId)
 			vAssume(vImplies(touches, vOr(gn.InnovationNum == r.InnovationNum, gn.InnovationNum == r.InnovationNum2)))
@@ -462,6 +466,40 @@ func (m *mutScene) checkC03(k int) {
 		}
 	}
 	vAssert(distinct, "C03: recorded innovations carry pairwise distinct numbers")
+	// identical structural innovations arising in the same generation receive identical numbers: the record never
+	// holds two entries for the same new link or for the same split of the same gene
+	once := true
+	for i := range recs {
+		for j := i + 1; j < len(recs); j++ {
+			a, b := recs[i], recs[j]
+			if a.innovationType != b.innovationType {
+				continue
+			}
+			same := vAnd(a.InNodeId == b.InNodeId, a.OutNodeId == b.OutNodeId)
+			if a.innovationType == newNodeInnType {
+				once = vAnd(once, !vAnd(same, a.OldInnovNum == b.OldInnovNum))
+			} else {
+				once = vAnd(once, !vAnd(same, a.IsRecurrent == b.IsRecurrent))
+			}
+		}
+	}
+	vAssert(once, "C03: the same structural innovation is recorded once per generation (a repeated one reuses the recorded numbers)")
+	// the two genes of a recorded split: in->new keeps the split gene's flag, new->out is never recurrent
+	flags := true
+	for _, gn := range g.Genes {
+		if isOld(gn, m.oldGenes) {
+			continue // the flags of genes this genome already carried are the pre-state invariant
+		}
+		for _, r := range recs {
+			if r.innovationType == newNodeInnType {
+				flags = vAnd(flags, vImplies(gn.InnovationNum == r.InnovationNum2, !gn.Link.IsRecurrent))
+				for _, og := range g.Genes {
+					flags = vAnd(flags, vImplies(vAnd(gn.InnovationNum == r.InnovationNum, og.InnovationNum == r.OldInnovNum), gn.Link.IsRecurrent == og.Link.IsRecurrent))
+				}
+			}
+		}
+	}
+	vAssert(flags, "C03: genes numbered like a recorded split carry that split's recurrence flags")
 	// the same structural innovation arising again in the same generation gets the same numbers:
 	// a second genome with the same structure performing the same mutation reuses the record
 	_ = k
